@@ -20,6 +20,9 @@ except ImportError:
     greenlet = None
 
 
+RULE += " Round 9: module variants `wraps:extract_since` / `wraps:extract` (function metadata copied from stackscope's public functions)."
+
+
 def legs(tier):
     from vlib.runner import Leg
     n = 4 if tier == "quick" else 14
